@@ -4,7 +4,9 @@
 """
 
 import copy
+import json
 import math
+import os
 import traceback
 from typing import Any, Dict, Iterator, List, Optional, Tuple
 
@@ -114,7 +116,10 @@ class PoolEngine(Engine):
     # ------------------------------------------------------------ generation
     def generate(self, rng, cfg: Dict[str, Any], prop: str) -> Dict[str, Any]:
         real = rng.random() < float(cfg.get("real_runs", 0)) / max(1, int(cfg["runs"]))
-        workload = weighted(rng, [("generic", 6), ("records", 3), ("preprocess", 0 if real else 2)])
+        workload = weighted(rng, [("generic", 6), ("records", 3), ("preprocess", 0 if real else 2),
+                                  ("pipeline", 0 if real else float(cfg.get("pipeline_weight", 0.07)))])
+        if workload == "pipeline":
+            return self._gen_pipeline(rng)
         cpus = weighted(rng, [(1, 1), (2, 2), (3, 2), (4, 2), (rng.randint(5, 16), 4)])
         max_n = int(cfg.get("max_n", 70))
         sizes = [0, 1, max(cpus - 1, 0), cpus, cpus + 1, 4 * cpus, 4 * cpus + 1, rng.randint(2, max_n)]
@@ -205,6 +210,33 @@ class PoolEngine(Engine):
                 task.pop("unpicklable_arg", None)   # such a chunk never starts, so it could not take its turn
         return scenario
 
+    def _gen_pipeline(self, rng) -> Dict[str, Any]:
+        """ the whole run_antismash on a multi-record input at --cpus k (simulated pool) vs --cpus 1 """
+        from sim.engines.hashseed import ENGINE as HASHSEED
+        merged: Dict[str, Any] = {"records": [], "hits": [], "domain_hits": {}, "domain_lengths": {}}
+        for index in range(rng.randint(2, 5)):
+            part = HASHSEED._gen_pipeline(rng)   # pylint: disable=protected-access
+            for record in part["records"][:1]:
+                record = dict(record, id=f"REC{index}" if rng.random() < 0.8 else "REC0")   # duplicate ids happen
+                prefix = f"n{index}"
+                rename = {gene["name"]: prefix + gene["name"] for gene in record["genes"]}
+                record["genes"] = [dict(gene, name=rename[gene["name"]]) for gene in record["genes"]]
+                if rng.random() < 0.15:
+                    record["genes"] = []        # no genes and no gene finding: the record is skipped
+                if rng.random() < 0.2:
+                    record["seq"] = record["seq"].lower().replace("a", "-", 3)
+                merged["records"].append(record)
+                merged["hits"] += [dict(hit, cds=rename[hit["cds"]]) for hit in part["hits"] if hit["cds"] in rename]
+                for key, table in part["domain_hits"].items():
+                    merged["domain_hits"].setdefault(key, [])
+                    merged["domain_hits"][key] += [dict(hit, cds=rename[hit["cds"]]) for hit in table if hit["cds"] in rename]
+                merged["domain_lengths"].update(part["domain_lengths"])
+        count = len(merged["records"])
+        return {"workload": "pipeline", "leg": "sim", "cpus": rng.randint(2, 16), "timeout": None, "followup": 0,
+                "cpus_via_config": False, "args_form": "list", "pipeline": merged,
+                "tasks": [{"i": i, "ms": rng.choice([1, 5, 50, 200]), "ms2": rng.choice([1, 5, 50, 200])}
+                          for i in range(count)]}
+
     def ops_key(self) -> Optional[str]:
         return "tasks"
 
@@ -251,7 +283,9 @@ class PoolEngine(Engine):
                         yield cand
 
     def sample_view(self, scenario: Dict[str, Any], result: RunResult) -> Any:
-        view = {k: v for k, v in scenario.items() if k != "tasks"}
+        view = {k: v for k, v in scenario.items() if k not in ("tasks", "pipeline")}
+        if "pipeline" in scenario:
+            view["records"] = [[r["id"], len(r["seq"]), len(r["genes"])] for r in scenario["pipeline"]["records"]]
         view["n_tasks"] = len(scenario["tasks"])
         view["tasks_head"] = [{k: (v if k != "spec" else {"id": v["id"], "len": len(v["seq"]), "genes": len(v["genes"])})
                                for k, v in t.items()} for t in scenario["tasks"][:4]]
@@ -272,7 +306,8 @@ EXPECTED_PROBES = ["out_of_order_completion", "n_lt_k", "n_eq_k", "n_gt_4k", "ex
                    "kill_fired", "stall_fired", "generator_args", "records_with_origin_areas", "preprocess_genefinding",
                    "unpicklable_result_fired", "unpicklable_task_fired", "cpus_from_config", "followup_ok",
                    "empty_batch", "preprocess_duplicate_ids", "records_with_sectioned_children", "real_pool_run",
-                   "real_out_of_order_completion", "simpool_agrees_with_real_pool"]
+                   "real_out_of_order_completion", "simpool_agrees_with_real_pool", "pipeline_multi_record",
+                   "pipeline_out_of_order_completion"]
 
 _MODS: Dict[str, Any] = {}
 _ADDRESS = __import__("re").compile(r"0x[0-9a-fA-F]+")
@@ -374,6 +409,8 @@ class _Execution:
                 self._run_generic()
             elif workload == "records":
                 self._run_records()
+            elif workload == "pipeline":
+                self._run_pipeline()
             else:
                 self._run_preprocess()
         except Exception as err:  # pylint: disable=broad-except
@@ -582,6 +619,81 @@ class _Execution:
                                                f"than in-process execution gives: {str(detail)[:600]} "
                                                f"(k={self.sc['cpus']}, func={self.sc.get('func')})")
                         break
+
+    # ---------- whole pipeline at --cpus k (simulated pool inside the antiSMASH process) vs --cpus 1
+    def _run_pipeline(self) -> None:
+        from sim.world import pipeline as P
+        sc, res = self.sc, self.res
+        k = int(sc["cpus"])
+        data = sc["pipeline"]
+        simpool.install(simpool.Schedule([]))
+        work = P.scratch_dir("c18_")
+        try:
+            infile = os.path.join(work, "input.gbk")
+            P.write_genbank(infile, data["records"])
+            schedule = [self._schedule(), self._schedule(second=True)]
+
+            def run(cpus: int, tag: str) -> Tuple[Dict[str, Any], Dict[str, Any]]:
+                outdir = os.path.join(work, tag)
+                inv = {"args": P.base_args(outdir, cpus=cpus), "input": infile, "hits": data["hits"],
+                       "domain_hits": data["domain_hits"], "domain_lengths": data["domain_lengths"], "salt": 0}
+
+                def hook(invocation: Dict[str, Any]) -> None:
+                    if cpus == 1:
+                        return
+                    import atexit
+                    from antismash.common.subprocessing import base
+                    from sim.world import simpool as child_pool
+                    plan = child_pool.Schedule(schedule)
+                    child_pool.install(plan)
+                    base.multiprocessing = child_pool.SHIM
+                    invocation["_events"].append(plan)     # filled in as the run proceeds
+                result = P.invoke(inv, hook)
+                snap = P.snapshot(outdir, keep_content=True) if os.path.isdir(outdir) else {}
+                files = {}
+                for name, entry in snap.items():
+                    if name.endswith(".zip"):
+                        continue
+                    text = entry["content"]
+                    if name.endswith(".json"):
+                        parsed = json.loads(text)
+                        parsed.pop("timings", None)
+                        text = json.dumps(parsed)
+                    files[name] = text
+                return result, files
+            reference, reference_files = run(1, "seq")
+            actual, actual_files = run(k, "par")
+            plans = [e for e in actual.get("events", []) if isinstance(e, simpool.Schedule)]
+            orders = plans[0].completion_orders if plans else []
+            sched = simpool.CURRENT
+            if plans and sched is not None:
+                sched.completion_orders = orders
+                sched.now = plans[0].now
+                sched.log = plans[0].log
+            res.probe("pipeline_multi_record")
+            if any(order != sorted(order) for order in orders):
+                res.probe("pipeline_out_of_order_completion")
+            self.trace.append(["outcome", actual["status"], reference["status"], orders])
+            context = f"{len(data['records'])} records, --cpus {k}, completion orders {orders}"
+            if actual["status"] != reference["status"]:
+                res.violate("C18-p", f"run_antismash with --cpus {k} ended with {actual['status']} "
+                            f"({actual.get('error', '')[:150]}), with --cpus 1 {reference['status']} "
+                            f"({reference.get('error', '')[:150]}) ({context})", sig="C18-p:pipeline-status")
+                return
+            if sorted(actual_files) != sorted(reference_files):
+                res.violate("C18-p", f"run_antismash with --cpus {k} wrote files {sorted(actual_files)}, with --cpus 1 "
+                            f"{sorted(reference_files)} ({context})", sig="C18-p:pipeline-file-list")
+                return
+            differing = sorted(name for name in reference_files if reference_files[name] != actual_files[name])
+            if differing:
+                import difflib
+                name = differing[0]
+                diff = list(difflib.unified_diff(reference_files[name].splitlines(), actual_files[name].splitlines(),
+                                                 "--cpus 1", f"--cpus {k}", lineterm="", n=1))[:20]
+                res.violate("C18-p", f"run_antismash outputs differ between --cpus {k} and --cpus 1 in {differing} "
+                            f"({context}):\n" + "\n".join(diff), sig="C18-p:pipeline-output")
+        finally:
+            P.cleanup(work)
 
     # ---------- whole pre-processing stage
     def _options(self, cpus: int) -> Dict[str, Any]:
